@@ -1,7 +1,31 @@
-(* Glue that runs the extracted validators (proved in Coq) on implementation output. *)
+(* Glue that runs the extracted specification-side functions (defined and reasoned about in Coq)
+   on the trees of the implementation: input tree, output tree, re-parsed content. *)
 open Model
 open Util
 
-let run (_prefix : string) (_cfg : config) (_parts : string list) (_src : string)
-    (_ast_in : node option) (_ast_out : node option) (_ast_reparsed : node option)
-  : (string * jv) list = []
+let strs (l : char list list) : jv = JL (List.map (fun s -> JS (implode s)) l)
+
+let on (parts : string list) (name : string) (f : unit -> (string * jv) list) : (string * jv) list =
+  if List.mem name parts then f () else []
+
+let run (_prefix : string) (cfg : config) (parts : string list) (_src : string)
+    (ast_in : node option) (ast_out : node option) (ast_reparsed : node option)
+  : (string * jv) list =
+  let hooks =
+    on parts "hooks" (fun () ->
+      let one name = function
+        | None -> []
+        | Some t ->
+            [ (name ^ "_hook_count", JI (int_of_nat (hook_count t)));
+              (name ^ "_hook_names", strs (hook_names t));
+              (name ^ "_hook_tags", strs (hook_tags (var_prefix cfg) t));
+              (name ^ "_hook_sites",
+               JL (List.map (fun (nm, (lo, hi)) -> JL [ JS (implode nm); JI (int_of_n lo); JI (int_of_n hi) ])
+                     (hook_sites t))) ] in
+      one "in" ast_in @ one "out" ast_out @ one "reparsed" ast_reparsed
+      @ [ ("prologue_hook_count",
+           JI (List.fold_left (fun a s -> a + int_of_nat (hook_count s)) 0 cfg.c_prefix_stmts)) ]) in
+  let classes =
+    on parts "classes" (fun () ->
+      match ast_in with Some t -> [ ("classes", strs (known_classes t)) ] | None -> []) in
+  hooks @ classes
